@@ -150,7 +150,11 @@ Theorem C20_tasks_wiring :
   2 <= dflt TK.task_sh_sequence_length Gen_ds_shakespeare_defaults.sh_default_sequence_length /\
   TK.task_cifar_uses_tff_defaults = true /\
   Gen_md_cifar100.cifar_model_sample_shape =
-    [1; Gen_ds_cifar100_defaults.cifar_default_crop_height; Gen_ds_cifar100_defaults.cifar_default_crop_width; 3].
+    [1; Gen_ds_cifar100_defaults.cifar_default_crop_height; Gen_ds_cifar100_defaults.cifar_default_crop_width; 3] /\
+  (* EMNIST: dataset and model agree on digits-only (10 classes) vs all 62 classes *)
+  TK.task_emnist_conv_data_only_digits = TK.task_emnist_conv_model_only_digits /\
+  TK.task_emnist_logistic_data_only_digits = TK.task_emnist_logistic_model_only_digits /\
+  TK.task_emnist_dense_data_only_digits = TK.task_emnist_dense_model_only_digits.
 Proof. exact tasks_wiring. Qed.
 
 (* language models, per-example TRAINING loss: the translated loss (mask by `targets != pad`,
